@@ -41,7 +41,7 @@ func scenConf(dir string, fileMax int64, checkVHash bool) {
 	Conf.TreeHeight = 3
 	Conf.Init()
 	Conf.DataFileMax = fileMax
-	Conf.SplitCap = 4
+	Conf.SplitCap = scenSplitCap
 	Conf.IndexIntervalSize = 300
 	Conf.BufIOCap = 4096
 	Conf.CheckVHash = checkVHash
@@ -52,6 +52,8 @@ func scenConf(dir string, fileMax int64, checkVHash bool) {
 	config.MCConf.MaxKeyLen = 250
 	SecsBeforeDump = 0
 }
+
+var scenSplitCap int64 = 4
 
 func newScen(fileMax int64, checkVHash bool, keys ...string) *scen {
 	// CRC is an uninterpreted byte fold in scenarios (its definition: C16). FNV is real.
